@@ -801,7 +801,11 @@ class SymEval:
             if a in ('copy', 'to_frame', 'transpose', 'loc', 'iloc'):
                 return Bound(base, a)
             if a == 'shape':
-                return (1, len(base.cols)) if base.kind == 'frame' else (len(base.cols),)
+                if base.kind == 'frame':
+                    # a table has n rows; only series.to_frame() is known to have one
+                    return (1 if getattr(base, 'one_row', False) else Opaque('n'),
+                            len(base.cols))
+                return (len(base.cols),)
             if a == 'columns':
                 return list(base.cols)
             raise Unsupported('column %s missing' % a)
@@ -1156,6 +1160,16 @@ class SymEval:
         if isinstance(v, (list, tuple)):
             v = self.to_array(v)
         if isinstance(base, SArray):
+            if self.stacked and getattr(base, 'lead_one', False):
+                # stacked form: an array allocated with leading length 1 cannot take one value
+                # per sample (numpy raises a broadcasting error for n > 1)
+                def per_sample(x):
+                    if isinstance(x, SArray):
+                        return x.sample or any(per_sample(y) for y in x.entries.values())
+                    return isinstance(x, Rat) and not self.A.is_const(x)
+                if per_sample(v):
+                    raise Unsupported('shape mismatch: a per-sample value is stored into an array '
+                                      'allocated with leading length 1 (stacked form)')
             sels, _ = self._split_index(base, idx)
             kept = [len(p) for p, k in sels if k]
             tgt = SArray(tuple(kept), {})
@@ -1334,7 +1348,9 @@ class SymEval:
             if name == 'copy':
                 return Rec(dict(obj.cols), obj.kind, obj.name, obj.index)
             if name == 'to_frame':
-                return Rec(obj.cols, 'frame', obj.name, obj.index)
+                r_ = Rec(obj.cols, 'frame', obj.name, obj.index)
+                r_.one_row = True
+                return r_
             if name == 'transpose':
                 return obj
         if isinstance(obj, (Rat, int, float)) and name in ('copy', 'reshape'):
@@ -1572,12 +1588,16 @@ class SymEval:
             out = SArray(tuple(dims[:-1]), {}, default, False)
             out.stacked_rows = True
             return out
+        lead_one = False
         if len(dims) >= 2 and (dims[0] == 1 or not isinstance(dims[0], int)):
             sample = True
+            lead_one = dims[0] == 1
             dims = dims[1:]
         if len(dims) == 1 and not isinstance(dims[0], int):
             # one value per sample: evaluated for the generic sample
             return default if default is not None else Opaque('uninit')
         if not all(isinstance(d, int) for d in dims):
             raise Unsupported('symbolic shape %r' % (shape,))
-        return SArray(tuple(dims), {}, default, sample)
+        out = SArray(tuple(dims), {}, default, sample)
+        out.lead_one = lead_one
+        return out
